@@ -341,13 +341,34 @@ I.register_model(_Formal.is_output, lambda it, self: self.fields["f_out"])
 
 
 def _formal_assign(it, self, value):
-    # the trial assignment `info.ports[name] <<= value` fails for an incompatible actual
+    # an assignment TO THE DECLARED PORT OBJECT (the old trial `info.ports[name] <<= value`): it changes an object that
+    # belongs to the entity class and is shared by every instance and every later compilation
+    it.formal_writes.append(self.fields["f_name"])
     if isinstance(value, SObj) and value.fields.get("f_incompatible"):
         it.raise_(AssertionError, "incompatible")
     return self
 
 
 I.register_model(_Formal.__ilshift__, _formal_assign)
+C.inline("cohdl._core._type_qualifier:TypeQualifierBase.decay")
+
+
+class _FormalCopy:
+    """a copy of the placeholder value of a declared port: the trial assignment happens on it"""
+
+
+_Formal.copy = lambda self: None
+_FormalCopy._assign = lambda self, v: None
+I.register_model(_Formal.copy, lambda it, self: SObj(_FormalCopy, f_of=self))
+
+
+def _copy_assign(it, self, value):
+    if isinstance(value, SObj) and value.fields.get("f_incompatible"):
+        it.raise_(AssertionError, "incompatible")
+    return None
+
+
+I.register_model(_FormalCopy._assign, _copy_assign)
 
 
 class _Info:
@@ -356,6 +377,7 @@ class _Info:
 
 def actual(tag, view_of=None, incompatible=False, width=4):
     o = SObj(Signal, f_tag=tag, _default="DEFAULT-" + tag, _ref_spec=[] if view_of is None else ["slice"], f_incompatible=incompatible)
+    o.fields["_value"] = SObj(_FormalCopy, f_tag="value of " + tag, f_incompatible=incompatible)  # what decay() hands to the trial assignment
     o.fields["width"] = width  # vector-typed object; scalar objects (Bit, bool, enum) have no width (None stands for the AttributeError)
     o.fields["_root"] = view_of if view_of is not None else o
     return o
@@ -424,6 +446,8 @@ def init_spec(formals, call):
             defs = real_self.fields.get("_cohdl_port_definitions")
             if not isinstance(defs, dict) or set(defs) != set(names):
                 return False
+            if sx.it.formal_writes:
+                return False  # frame: the declared port objects (class state) are not assigned to (C11: the value would be seen by later compilations)
             for n, is_out in formals:
                 a = real_kw[n]
                 if defs[n] is not a or real_self.fields.get(n) is not a:
@@ -457,6 +481,11 @@ for name, (formals, call) in SCENARIOS.items():
         (CTX.Block.__dict__["__init__"], lambda it, self, *a, **k: None),
         (CTX._register_block, lambda it, blk: None),
     ]
+
+    def _init_setup(it, ctx, args, env):
+        it.formal_writes = []
+
+    c.setup = _init_setup
     con.cases.append(c)
 
 _NARROW_DESIGN = '''
